@@ -7,8 +7,8 @@
    mat_sink <frame>|<frame>|...      rows ts.id.k separated by ',', '-' = empty batch
    mat_run <op> <op> ...             engine-level history:
         L:<shard>/<shard>...         shard = <mem>~<seg>~<seg>..., mem = '-' | ev+ev..., seg = <mtime>@<zone>;<zone>..,
-                                     zone = ev+ev.., ev = k.ts.pt.id.ctx.v
-        R:<name>:<query>:<choice>    query = ctx,where,since,tf,returned,limit  ('-' = none; where = e|g|l<n>; tf = C|P)
+                                     zone = ev+ev.., ev = k.ts.pt.id.ctx.v[.type]
+        R:<name>:<query>:<choice>    query = ctx,where,since,tf,returned,limit[,type]  ('-' = none; where = e|g|l<n>; tf = C|P)
                                      choice = '-' | idx=k+k;idx=...
         S:<name>:<choice>
         F:<name>:<choice>            SHOW whose delivery failed: the frames named by the choice were appended
@@ -41,7 +41,7 @@ let zero = n_of_int 0
 (* ts.id.k *)
 let row3 (s : string) : M.event =
   match split '.' s with
-  | [ts; id; k] -> { M.e_k = n_of_string k; e_ts = n_of_string ts; e_pt = zero; e_id = n_of_string id; e_ctx = zero; e_v = zero }
+  | [ts; id; k] -> { M.e_k = n_of_string k; e_ts = n_of_string ts; e_pt = zero; e_id = n_of_string id; e_ctx = zero; e_v = zero; e_type = zero }
   | _ -> failwith "row3"
 
 let sink_probe (t : string list) : string =
@@ -63,7 +63,7 @@ let wm_probe (t : string list) : string =
   | _ :: m :: en :: rest ->
       let mark = pair_in m in
       let q = { M.q_ctx = None; q_where = None; q_since = None; q_tf = (if en = "1" then M.TCore else M.TPayload);
-                q_tf_returned = (en = "1"); q_limit = None } in
+                q_tf_returned = (en = "1"); q_limit = None; q_type = zero } in
       let spec = match rest with s :: _ -> s | [] -> "" in
       let frames = Stdlib.List.filter (fun s -> s <> "") (split '|' spec) in
       Stdlib.String.concat " " (Stdlib.List.map (fun f ->
@@ -77,9 +77,10 @@ let wm_probe (t : string list) : string =
 (* ---- engine-level histories *)
 let event_in (s : string) : M.event =
   match split '.' s with
-  | [k; ts; pt; id; c; v] ->
+  | k :: ts :: pt :: id :: c :: v :: ty ->
       { M.e_k = n_of_string k; e_ts = n_of_string ts; e_pt = n_of_string pt; e_id = n_of_string id;
-        e_ctx = n_of_string c; e_v = n_of_string v }
+        e_ctx = n_of_string c; e_v = n_of_string v;
+        e_type = (match ty with [t] -> n_of_string t | _ -> zero) }
   | _ -> failwith ("event " ^ s)
 let events_in (s : string) : M.event list = if s = "-" || s = "" then [] else Stdlib.List.map event_in (split '+' s)
 let seg_in (s : string) : M.segment =
@@ -97,14 +98,15 @@ let layout_in (s : string) : M.layout = Stdlib.List.map shard_in (split '/' s)
 let opt_n s = if s = "-" then None else Some (n_of_string s)
 let query_in (s : string) : M.query =
   match split ',' s with
-  | [c; w; si; tf; ret; lim] ->
+  | c :: w :: si :: tf :: ret :: lim :: ty ->
       { M.q_ctx = opt_n c;
         q_where = (if w = "-" then None else
                      Some ((match w.[0] with 'e' -> M.CEq | 'g' -> M.CGe | _ -> M.CLt), n_of_string (tl1 w)));
         q_since = opt_n si;
         q_tf = (if tf = "P" then M.TPayload else M.TCore);
         q_tf_returned = (ret = "1");
-        q_limit = opt_n lim }
+        q_limit = opt_n lim;
+        q_type = (match ty with [t] -> n_of_string t | _ -> zero) }
   | _ -> failwith "query"
 let choice_in (s : string) : M.choice =
   if s = "-" || s = "" then [] else
